@@ -151,21 +151,33 @@ def paramValue (f : FamSt α) (slot : Nat) : α :=
   | .texp, 1 => f.p1 | .texp, _ => f.p2
   | _, 1 => f.p1 | _, 2 => f.p2 | _, _ => f.p3
 
+/-- the shape / rate of a gamma read back from the parameters (`alpha_ = getParameterValue("alpha")` …) -/
+def setShape (f : FamSt α) (slot : Nat) (v : α) : FamSt α :=
+  if slot == 1 then { f with p1 := v } else if slot == 2 then { f with p2 := v } else f
+
 /-- `fireParameterChanged` of each family, given the new parameter values -/
 def fire (oracle : Parent α) (f : FamSt α) (slot : Nat) (v : α) : Except Err (FamSt α) :=
   match f.fam with
   | .gamma =>
-    -- GammaDiscreteDistribution.cpp:62-76 (repaired: the lower bound follows the offset)
-    let f1 : FamSt α := if slot == 1 then { f with p1 := v } else if slot == 2 then { f with p2 := v } else f
-    let f2 : FamSt α :=
-      if f.hasOffset && slot == 3 && !(Scalar.eqb f.p3 v)
-      then { f1 with p3 := v, dd := { f1.dd with dom := f1.dd.dom.setLowerBound v true } } else f1
-    f2.discretize oracle
+    -- GammaDiscreteDistribution.cpp:68-108 (repaired twice: the lower end follows the offset — when
+    -- it is the end of the support or the support starts above it —; an offset that leaves no support
+    -- inside the domain is refused: the parameter is restored, the object re-discretised with its
+    -- unchanged parameters — nothing changes — and a ConstraintException raised)
+    let f1 : FamSt α := setShape f slot v
+    if f.hasOffset && slot == 3 && !(Scalar.eqb f.p3 v) then
+      if !(Scalar.ltb v f1.dd.dom.hi) then .error .constraint else
+      let supportEnd := !f1.dd.dom.inclLo && Scalar.eqb f1.dd.dom.lo f.p3
+      let d := if supportEnd || Scalar.geb v f1.dd.dom.lo then f1.dd.dom.setLowerBound v true else f1.dd.dom
+      ({ f1 with p3 := v, dd := { f1.dd with dom := d } } : FamSt α).discretize oracle
+    else f1.discretize oracle
   | .beta =>
     -- BetaDiscreteDistribution.cpp:36-49
     let f1 : FamSt α := if slot == 1 then { f with p1 := v } else { f with p2 := v }
-    let d1 := if Scalar.leb f1.p1 Scalar.one && Scalar.eqb f1.dd.dom.lo Scalar.zero then f1.dd.dom.setLowerBound f1.dd.prec false else f1.dd.dom
-    let d2 := if Scalar.leb f1.p2 Scalar.one && Scalar.eqb d1.hi Scalar.one then d1.setUpperBound (Scalar.one - f1.dd.prec) false else d1
+    -- (repaired: an end is moved only when the domain stays ordered)
+    let d1 := if Scalar.leb f1.p1 Scalar.one && Scalar.eqb f1.dd.dom.lo Scalar.zero && Scalar.leb f1.dd.prec f1.dd.dom.hi
+              then f1.dd.dom.setLowerBound f1.dd.prec false else f1.dd.dom
+    let d2 := if Scalar.leb f1.p2 Scalar.one && Scalar.eqb d1.hi Scalar.one && Scalar.leb d1.lo (Scalar.one - f1.dd.prec)
+              then d1.setUpperBound (Scalar.one - f1.dd.prec) false else d1
     ({ f1 with dd := { f1.dd with dom := d2 } } : FamSt α).discretize oracle
   | .gauss =>
     let f1 : FamSt α := if slot == 1 then { f with p1 := v } else { f with p2 := v }
